@@ -5,13 +5,13 @@ from vlib import kani, core
 NOTES = {
  '13': ('Framed::next_item / Stream::poll_next: one poll per harness from a constructed pre-state (K buffered symbolic bytes, symbolic flags under the representation invariant, symbolic first transport answer); induction over polls gives independence of the arrival pattern', 'K + C <= 7 bytes (model CAP = 8); length-prefixed test codec and BytesCodec; LinesCodec framing is C15; 1 KiB / 8 KiB buffer growth is not modelled (virtual capacity only)'),
  '14': ('Framed::{write, flush, close} and the Sink impl: one sink operation per harness from a pre-state with K buffered symbolic bytes, every transport answer symbolic (Pending / Ok(0) / Ok(j) / Err; flush and shutdown Ready or Pending)', 'at most 3 poll_write calls per harness, items of 2 bytes, K <= 3; the 8 KiB high-water mark itself is out of reach of the 8-byte model buffer (only "below HW => ready without I/O" is checked)'),
- '15': ('LinesCodec::{decode, decode_eof, encode} and the round trip, bytes fully symbolic (all 256 values) per total length N, against an independent reference splitter and UTF-8 validator', 'N <= 3 (quick) / 5 (thorough); round trip for two strings of lengths <= 2'),
+ '15': ('LinesCodec::{decode, decode_eof, encode} and the round trip, bytes fully symbolic (all 256 values) per total length N, against an independent reference splitter and UTF-8 validator', 'N <= 3 (quick) / 5 (thorough); round trip for two strings of lengths <= 2; plus runs of 1..3 carriage returns before the newline with symbolic bytes around them (c15_decode_cr_run_K: exactly one CR is stripped), where the UTF-8 conversion is stubbed by the unchecked one (the bytes are ASCII by construction)'),
 }
 
 
 def run(rep, tier, seed):
     q = tier == 'quick'
-    rep.models |= {'bytes = value-type BytesMut/Bytes over an inline [u8; 8] + virtual capacity', 'memchr = least index, plain loop', 'tokio::io traits (verbatim signatures)',
+    rep.models |= {'kani::stub: lines::try_into_utf8 -> unchecked conversion, in the c15_decode_cr_run_* harnesses only (ASCII inputs by construction)', 'bytes = value-type BytesMut/Bytes over an inline [u8; 8] + virtual capacity', 'memchr = least index, plain loop', 'tokio::io traits (verbatim signatures)',
                    'tokio_util::codec::{Decoder,Encoder} (verbatim trait text incl. default decode_eof), tokio_util::io::poll_read_buf', 'tracing = no-op'}
     rep.assumptions += ['exceeding the 8-byte model buffer is kani::assume(false) (stated bound)', 'live heap objects are mem::forgotten at the end of a harness']
     rep.functions.add(NOTES['15'][0]); rep.bounds['stated'] = NOTES['15'][1]
